@@ -90,8 +90,10 @@ class AbstractSourceSinkGraph(nx.DiGraph):
             if self.base_graph.out_degree(u) == 0 or u in self.additional_ends:
                 self.add_edge(u, self.sink)
 
-        self.source_edges = list(self.out_edges(self.source))
-        self.sink_edges = list(self.in_edges(self.sink))
+        # Pass the synthetic nodes as one-element lists: a bare string that is not (yet) a node of the
+        # graph would be iterated character by character by networkx.
+        self.source_edges = list(self.out_edges([self.source]))
+        self.sink_edges = list(self.in_edges([self.sink]))
         self.source_sink_edges = set(self.source_edges + self.sink_edges)
 
     # ----------------------- Shared helper methods -----------------------
